@@ -19,12 +19,14 @@ def unit():
     #[verifier::prophetic]
     open spec fn post_c(&self, enc: spec_fn(Blk) -> Blk) -> bool {
         self.f.kpost(belt_ks(enc), KAbs { base: Seq::empty(), pos: *self.s as int }, KAbs { base: Seq::empty(), pos: mut_ref_future(self.s) as int })
+        && ks_reach(belt_ks(enc), KAbs { base: Seq::empty(), pos: *self.s as int }, KAbs { base: Seq::empty(), pos: mut_ref_future(self.s) as int })
     }
 ''', fns={'call': FnC(props=('C07', 'C06'), inherits=True, note='plumbing')}),
         Sel('impl StreamCipherCore for BeltCtrCore', members='''
     open spec fn kabs(&self) -> KAbs { KAbs { base: Seq::empty(), pos: self.s as int } }
     open spec fn kstep(&self) -> KStep { belt_ks(self.cipher.enc_fn()) }
     open spec fn klimit(&self) -> Option<int> { Some(two128() - 1 - ((self.s as int - self.s_init as int) % two128())) }
+    open spec fn korigin(&self) -> KAbs { KAbs { base: Seq::empty(), pos: self.s_init as int } }
 ''', fns={
             'remaining_blocks': FnC(ret='r', props=('C10', 'C11', 'C13'), inherits=True, ensures=[
                 ('exact', ('C10', 'C11'), 'r is Some ==> r->Some_0 as int == two128() - 1 - ((self.s as int - self.s_init as int) % two128())'),
@@ -33,13 +35,16 @@ def unit():
             'process_with_backend': FnC(props=('C07', 'C06'), inherits=True, note='plumbing')}),
         Sel('impl StreamCipherSeekCore for BeltCtrCore', members='''
     open spec fn counter_val(c: u128) -> int { c as int }
-    open spec fn origin(&self) -> KAbs { KAbs { base: Seq::empty(), pos: self.s_init as int } }
     open spec fn block_pos(&self) -> int { (self.s as int - self.s_init as int) % two128() }
     open spec fn pos_modulus() -> int { two128() }
     proof fn lemma_pos_coherent(&self) {
         let s = self.s as int; let i = self.s_init as int; let m = two128();
         mod_sub_wrap(s, i, m);
         mod_add_wrap(i, (s - i) % m, m);
+    }
+    proof fn lemma_step_law(&self) {
+        assert forall |a: KAbs| (#[trigger] self.kstep()(a)).0 == (KAbs { base: a.base, pos: (a.pos + 1) % Self::pos_modulus() }) by {
+        }
     }
 ''', fns={
             'get_block_pos': FnC(ret='r', props=('C10', 'C13', 'C06'), inherits=True, ensures=[
